@@ -8,6 +8,7 @@
      Proofs_give    CPUs given back (preferred / preemptible): available set and owner limit
      Proofs_conc    Update as one critical section: every interleaving, every intermediate state
      Proofs_event   informer events through podEventHandler: live pods of a history, invariants
-     Proofs_dump    the model's dump passes clauses 21-25 after every history; wire round trip *)
+     Proofs_dump    the model's dump passes clauses 21-25 after every history; wire round trip
+     Proofs_race    Release and Update racing for the node's ledger: either order of the two sections *)
 From Verif Require Export C06.Proofs_base C06.Proofs_numa C06.Proofs_ledger C06.Proofs_gen
-  C06.Proofs_take C06.Proofs_take2 C06.Proofs_alloc C06.Proofs_hist C06.Proofs_spec C06.Proofs_main C06.Proofs_give C06.Proofs_conc C06.Proofs_event C06.Proofs_dump.
+  C06.Proofs_take C06.Proofs_take2 C06.Proofs_alloc C06.Proofs_hist C06.Proofs_spec C06.Proofs_main C06.Proofs_give C06.Proofs_conc C06.Proofs_event C06.Proofs_dump C06.Proofs_race.
